@@ -296,6 +296,10 @@ impl InsertionHeuristic {
 
         finalize_insertion_ctx(&mut insertion_ctx);
 
+        // NOTE a feature can add an empty route on failure notification (e.g. tour duration limit) or
+        // remove the last (marker) job from the tour on solution state acceptance
+        insertion_ctx.solution.remove_empty_routes();
+
         insertion_ctx
     }
 }
@@ -370,9 +374,6 @@ pub(crate) fn prepare_insertion_ctx(insertion_ctx: &mut InsertionContext) {
 
 pub(crate) fn finalize_insertion_ctx(insertion_ctx: &mut InsertionContext) {
     finalize_unassigned(insertion_ctx, UnassignmentInfo::Unknown);
-
-    // NOTE a feature can add an empty route on failure notification (e.g. tour duration limit)
-    insertion_ctx.solution.remove_empty_routes();
 
     insertion_ctx.problem.goal.accept_solution_state(&mut insertion_ctx.solution);
 }
